@@ -658,6 +658,9 @@ func genC07(g *Gen) error {
 	if err := genC07Wire(g); err != nil {
 		return err
 	}
+	if err := genC07PreAgg(g); err != nil {
+		return err
+	}
 	g.Footer()
 	return nil
 }
